@@ -17,12 +17,19 @@ P = {
                  "C08_off_answers_precondition", "C08_off_rejects_encoded_slash_parametric", "C08_F4_off_refuted",
                  "C08_F2_off_pinned_refuted", "C08_off_captures_decoded", "C08_capture_decoding",
                  "C08_nodecode_keeps", "C08_on_decodes", "C08_nodecode_on_nonvacuous",
-                 "C08_F5_nodecode_refuted", "C08_F2_nodecode_pinned_refuted"],
+                 "C08_F5_nodecode_refuted", "C08_F2_nodecode_pinned_refuted", "C08_reencoding_invariant_envoy",
+                 "C08_off_rejects_encoded_slash_envoy", "C08_F4_envoy_upstream_refuted"],
     "streams": [{
         "name": "requests", "pkg": "./internal/rules", "test": "TestVerifC08",
         "overlay": {"internal/rules/zz_verif_c08_test.go": "c08/c08_test.go"},
         "eval_module": "Run.Eval_C08", "check_term": "check " + FX,
         "n_quick": 1200, "n_thorough": 30000, "shard": 150,
+        "findings": {1: "C08-F1", 4: "C08-F4", 5: "C08-F5"},
+    }, {
+        "name": "envoy", "pkg": "./internal/rules", "test": "TestVerifC08Envoy",
+        "overlay": {"internal/rules/zz_verif_c08_test.go": "c08/c08_test.go"},
+        "eval_module": "Run.Eval_C08", "check_term": "check_envoy " + FX,
+        "n_quick": 600, "n_thorough": 15000, "shard": 150,
         "findings": {1: "C08-F1", 4: "C08-F4", 5: "C08-F5"},
     }, {
         "name": "units", "pkg": "./internal/rules", "test": "TestVerifC08Units",
@@ -36,7 +43,7 @@ P = {
         "eval_module": "Run.Eval_GoUrl", "check_term": "check",
         "n_quick": 3000, "n_thorough": 40000, "findings": {},
     }],
-    "rule": "requests: a base path of 1-4 segments (words, values with escapes of unreserved/reserved octets, %2F/%2f, "
+    "rule": "envoy: the same generator and corpus, both spellings handed to grpcv3.NewRequestContext + the real executor.  requests: a base path of 1-4 segments (words, values with escapes of unreserved/reserved octets, %2F/%2f, "
             "place-holder text, bytes net/url rejects, malformed escapes), 1-4 rules derived from it (literal / :wildcard / "
             "*catch-all per position, path_params on the decoded or encoded value, all three allow_encoded_slashes settings, "
             "forward_to with/without rewrite), default rule in 40%, and an equivalent re-encoding of the path (unreserved "
@@ -63,15 +70,16 @@ P = {
                   "and the captured values are unchanged outside the guard of finding C08-F1; a path with %2F/%2f is "
                   "never accepted by an `off` rule or the default rule outside C08-F4; captured values are the decoded pieces of the path "
                   "(`no_decode`: all but the encoded slash; place-holder trick proved correct) and the upstream raw path is kept / dropped, outside C08-F4/F5.  Each guard has a `_refuted` witness.  The model is tied "
-                  "to the code by three differential streams per run (~1200 request pairs through the real server/repository/"
-                  "executor, ~1500 unescape units, ~3000 net/url cases; 30000/30000/40000 in the thorough tier).",
+                  "to the code by three differential streams per run (~1200 request pairs through the real net/http server/"
+                  "repository/executor, ~600 through the real Envoy request context, ~1500 unescape units, ~3000 net/url cases; "
+                  "30000/15000/30000/40000 in the thorough tier).",
     "level_note": "Trusted: Coq kernel/vm_compute; the correspondence harness (generator, stub authenticator, Gallina rendering); "
                   "the radix tree abstracted to a segment-wise search (C02/C03 own the tree), generator restricted to inputs "
                   "exact path_params only.  Open findings C08-F1/F4/F5 are guarded, observed on every run from the driver's corpus "
                   "and documented by `_refuted` theorems; C08-F2 and C08-F3 were repaired by fix: commits a779db8 and 72ba5d4 (theorems are stated "
                   "for the repaired tree, the earlier behaviour is kept as `_pinned_refuted`); the model is parametric in the repairs.",
-    "assumptions": ["requests reach heimdall through net/http (HTTP/1.1 origin-form target); the Envoy entry point, where "
-                    "RawPath is never set, is C03's/C13's subject",
+    "assumptions": ["requests reach heimdall through net/http (HTTP/1.1 origin-form target) or through the Envoy ext_authz request "
+                    "context (path attribute without query); X-Forwarded-Uri delivery is not driven",
                     "every rule of the modelled rule sets has backtracking enabled (C02-F1/C14 cover the flag)",
                     "the request path contains no '?' (the query is a separate input)"],
 }
